@@ -5,6 +5,13 @@
 // the HTTP answer and everything the process wrote to fd 1 / fd 2 during the step (core/log writes to stdout;
 // the file sink /tmp/cdc_log/cdc.log receives the same entries from the same zap core) for every canary,
 // raw and base64-encoded at any alignment.
+//
+// Spelling (step field "spell"): the create request's JSON body is sent with its keys spelled as the plan says
+// ("canon" lower case, "cap" / "upper" the credential keys capitalised / in upper case, "mixed" credential keys and the
+// enclosing connect-param / sasl keys in alternating case).  The server decodes the body with mapstructure, which
+// matches keys case-insensitively: every spelling is the same request with the same secrets (the event field "stored"
+// lists the canaries that reached the task record, i.e. that the decoder accepted).
+// Fault 90: every store call of the step fails (the store is down for the whole step); 1..20: the k-th call fails.
 package main
 
 import (
@@ -164,7 +171,66 @@ func (w *world) post(v interface{}) (int, []byte, bool) {
 
 const taskID = "sec-task"
 
-func (w *world) createReq(kind string, fault int) M {
+// keys whose values are credentials, and the keys of the objects that enclose them
+var credKeys = map[string]bool{"token": true, "username": true, "password": true}
+var pathKeys = map[string]bool{"milvus_connect_param": true, "kafka_connect_param": true, "sasl": true}
+
+func alternating(k string) string {
+	b := []byte(strings.ToLower(k))
+	up := false
+	for i, c := range b {
+		if c >= 'a' && c <= 'z' {
+			if up {
+				b[i] = c - 'a' + 'A'
+			}
+			up = !up
+		}
+	}
+	return string(b)
+}
+
+func spellKey(k, spell string) string {
+	switch spell {
+	case "", "canon":
+		return k
+	case "cap":
+		if credKeys[k] {
+			return strings.ToUpper(k[:1]) + k[1:]
+		}
+	case "upper":
+		if credKeys[k] {
+			return strings.ToUpper(k)
+		}
+	case "mixed":
+		if credKeys[k] || pathKeys[k] {
+			return alternating(k)
+		}
+	default:
+		panic("spelling " + spell)
+	}
+	return k
+}
+
+// respell returns a copy of a request_data value with its keys spelled as asked (values untouched)
+func respell(v interface{}, spell string) interface{} {
+	switch x := v.(type) {
+	case M:
+		r := M{}
+		for k, e := range x {
+			r[spellKey(k, spell)] = respell(e, spell)
+		}
+		return r
+	case []interface{}:
+		r := make([]interface{}, len(x))
+		for i, e := range x {
+			r[i] = respell(e, spell)
+		}
+		return r
+	}
+	return v
+}
+
+func (w *world) createReq(kind, spell string, fault int) M {
 	id := taskID
 	coll := "coll_sec"
 	if fault == 96 { // a second task asking for the same collection: rejected as duplicate (if the first exists)
@@ -200,17 +266,19 @@ func (w *world) createReq(kind string, fault int) M {
 			data["kafka_connect_param"].(M)["sasl"].(M)["password"] = []interface{}{canaries["sasl_pass"]}
 		}
 	}
-	return M{"request_type": "create", "request_data": data}
+	return M{"request_type": "create", "request_data": respell(data, spell)}
 }
 
-func (w *world) taskState() string {
+// taskState: state of the task record and the canaries its stored record holds (they have to be there: the task
+// needs them to connect; it shows that the request's spelling of the credential keys was accepted)
+func (w *world) taskState() (string, []string) {
 	ts, _ := w.env.Store.Dump()
 	for _, t := range ts {
 		if t.Info.TaskID == taskID {
-			return t.Info.State.String()
+			return t.Info.State.String(), scan([]byte(t.Raw))
 		}
 	}
-	return "none"
+	return "none", []string{}
 }
 
 var logs *capture
@@ -234,13 +302,18 @@ func run(p *hx.Plan) []hx.Event {
 	var evs []hx.Event
 	for i, st := range p.Steps {
 		op, fault := hx.S(st, "op"), hx.I(st, "fault")
-		kind := hx.S(st, "kind")
-		ev := hx.Event{"op": op, "i": i + 1, "n": len(p.Steps), "fault": fault, "kind": kind}
+		kind, spell := hx.S(st, "kind"), hx.S(st, "spell")
+		if spell == "" {
+			spell = "canon"
+		}
+		ev := hx.Event{"op": op, "i": i + 1, "n": len(p.Steps), "fault": fault, "kind": kind, "spell": spell}
 		w.env.Store.ResetCalls()
 		w.env.FailEntity(0)
 		switch {
 		case fault >= 1 && fault <= 20:
 			w.env.Store.FailAt(fault)
+		case fault == 90:
+			w.env.Store.FailFrom(1, 10000)
 		case fault == 99:
 			w.env.FailEntity(1)
 		}
@@ -250,7 +323,7 @@ func run(p *hx.Plan) []hx.Event {
 		id := M{"task_id": taskID}
 		switch op {
 		case "create":
-			code, body, broken = w.post(w.createReq(kind, fault))
+			code, body, broken = w.post(w.createReq(kind, spell, fault))
 		case "get", "pause", "resume", "position":
 			code, body, broken = w.post(M{"request_type": op, "request_data": id})
 		case "delete":
@@ -272,7 +345,7 @@ func run(p *hx.Plan) []hx.Event {
 		ev["resp_leak"] = scan(body)
 		ev["log_leak"] = scan(logText)
 		ev["log_bytes"] = len(logText)
-		ev["state"] = w.taskState()
+		ev["state"], ev["stored"] = w.taskState()
 		// evidence for the reader of a replay file: the first leaking log line, canaries left in (it is a test string)
 		ev["log_sample"] = ""
 		if ll := ev["log_leak"].([]string); len(ll) > 1 || (len(ll) == 1 && ll[0] != "user") {
